@@ -49,8 +49,12 @@ ANCHORS = ["openfisca_core/taxbenefitsystems/tax_benefit_system.py", "openfisca_
            "openfisca_core/parameters/vectorial_parameter_node_at_instant.py",
            "openfisca_core/parameters/vectorial_asof_date_parameter_node_at_instant.py",
            "openfisca_core/tracers/tracing_parameter_node_at_instant.py",
-           "openfisca_core/parameters/parameter_node.py", "openfisca_core/parameters/at_instant_like.py"]
-RULE = ("a random parameter tree (leaves with 0-4 dated entries incl. nulls, nodes, tax scales, homogeneous groups "
+           "openfisca_core/parameters/parameter_node.py", "openfisca_core/parameters/at_instant_like.py",
+           "openfisca_core/parameters/helpers.py"]
+RULE = ("three streams: (1) general, (2) date-indexed groups with 256-600 dated members in chronological order read "
+        "by date vectors around positions 255/256/257, 511/512/513 and the last (model and oracle), (3) special "
+        "numeric leaf values incl. both infinities in one group, name and date vectors, loads and reforms (oracle "
+        "only).  General stream: a random parameter tree (leaves with 0-4 dated entries incl. nulls, nodes, tax scales, homogeneous groups "
         "of depth 1-3 with a member that is undefined at some dates, inhomogeneous groups, groups of before_/after_ "
         "dated members in and out of chronological order) and 5-18 operations: reads by the four "
         "routes at 2-3 'hot' dates (repeated, so the cache is hit) and at every boundary date +-1, to leaves, nodes, "
@@ -70,7 +74,10 @@ TRUSTED = ["while a generated YAML directory is loaded, os.listdir is wrapped to
            "conversion of Enum members / EnumArrays / ints to names inside __getitem__ is run for real and checked by "
            "the oracle; the model receives the names",
            "numpy record arrays, numpy.select broadcasting and datetime64 comparison are modelled as list operations"]
-ASSUMPTIONS = ["indexing by DATES is not generated on groups whose members are nodes that declare their own members in "
+ASSUMPTIONS = ["a stream of special leaf values (+inf, -inf, -0.0, 1e300, 2^70, 5e-324; never NaN, which the code uses as "
+               "its 'no such key' marker) is run on the implementation and judged by the oracle only (numeric "
+               "equality, so -0.0 = 0.0); the Coq side gets KSkip for these cases",
+               "indexing by DATES is not generated on groups whose members are nodes that declare their own members in "
                "different orders (the as-of variant stacks the records with numpy.asarray, which cannot combine "
                "different field orders: refused with varying exceptions, unmodelled); name vectors are",
                "parameter values are None or dyadic numbers (multiples of 1/4, |x| < 2^15), sent to the model as 4*x",
@@ -99,9 +106,14 @@ def iso(o):
     return datetime.date.fromordinal(o).isoformat()
 
 
+SPECIAL = [False]      # while a special-values case runs: leaves are rendered as floats, not as 4*x
+
+
 def v4(x):
     if x is None:
         return None
+    if SPECIAL[0]:
+        return float(x)
     fr = fractions.Fraction(float(x)) * 4
     if fr.denominator != 1:
         raise ValueError(f"value {x!r} is not a multiple of 1/4")
@@ -172,6 +184,8 @@ def cop(o):
 
 
 def coq_case(c):
+    if c.get("special"):
+        return "KSkip"
     return f"(KSeq {ctree(c['tree'])} {clist([cop(o) for o in c['ops']])})"
 
 
@@ -545,11 +559,17 @@ def exec_ops(systems, ops, out):
 
 def run_impl(c):
     out = []
-    exec_ops([new_system(c["tree"])], c["ops"], out)
+    SPECIAL[0] = bool(c.get("special"))
+    try:
+        exec_ops([new_system(c["tree"])], c["ops"], out)
+    finally:
+        SPECIAL[0] = False
     return out
 
 
 def obs_for_coq(c, obs):
+    if c.get("special"):
+        return None
     if isinstance(obs, Err):
         return obs
     return [a[:2] for a in obs]
@@ -584,7 +604,7 @@ def homogeneous(level):
         if not all(is_node(x) and {n for n, _ in x[1]} == names for x in level):
             return False
         return homogeneous([c for x in level for _, c in x[1]])
-    return all(isinstance(x, int) and not isinstance(x, bool) for x in level)
+    return all(isinstance(x, (int, float)) and not isinstance(x, bool) for x in level)
 
 
 def record_field_step(ref, tail):
@@ -770,6 +790,10 @@ def nontrivial(c, obs):
 def classify(c, obs):
     kinds = {o["op"] for o in c["ops"]}
     tails = {o["tail"]["k"] for o in c["ops"] if o["op"] == "read"}
+    if c.get("special"):
+        return "special-values/" + "+".join(sorted(tails))
+    if c.get("big"):
+        return "long-dated-group/" + "+".join(sorted(tails))
     tag = "+".join(sorted(kinds - {"read"})) or "reads-only"
     nsys = 1 + sum(1 for o in c["ops"] if o["op"] == "reform")
     return f"{min(nsys, 4)}sys:" + tag + "/" + "+".join(sorted(tails))
@@ -1249,9 +1273,109 @@ def gen_case(rng):
     return {"tree": tree, "ops": ops}
 
 
+# ---- at scale: date-indexed groups with hundreds of dated members ------------------------------------
+
+def one_leaf(v, d="1940-01-01"):
+    return {"t": "param", "wrapped": False, "entries": [{"d": d, "k": "bare", "v": v}]}
+
+
+def gen_big_asof_case(rng, n=None):
+    """A group before_X / after_Y1 ... after_Yn with n in 256..600 (one member every 30 days from 1950), in
+    chronological order; date vectors around the positions 255/256/257, 511/512/513 and the last one."""
+    n = n or rng.choice([256, 257, 300, 511, 513, 600])
+    first = O("1950-01-01")
+    ords = [first + 30 * i for i in range(n)]
+    children = [["before_1950_01_01", one_leaf(0)]]
+    children += [["after_" + iso(o).replace("-", "_"), one_leaf(i + 1)] for i, o in enumerate(ords)]
+    tree = {"t": "node", "layout": "dir", "children": [
+        ["born", {"t": "node", "layout": "file", "asof": True, "children": children}],
+        ["amount", one_leaf(7)]]}
+    marks = sorted({j for j in (0, 1, 200, 254, 255, 256, 257, 300, 510, 511, 512, 513, n - 2, n - 1) if j < n})
+    ops = []
+
+    def lookup(k, route):
+        js = [rng.choice(marks) for _ in range(rng.choice([2, 3, 5]))] + [rng.choice([m for m in marks if m >= 255])]
+        dates = [iso(ords[j] + rng.choice([-1, 0, 0, 1, 29])) for j in js]
+        return {"op": "read", "sys": k, "route": route, "path": ["born"], "date": "2016-06-01", "form": rng.randrange(3),
+                "tail": {"k": "asof", "dates": dates, "field": None}}
+    ops.append(lookup(0, rng.choice(["system", "direct"])))
+    ops.append({"op": "reform", "sys": 0, "inside": rng.choice([0, 1])})
+    ops.append(lookup(1, rng.choice(["formula", "traced"])))
+    if rng.random() < 0.5:
+        ops.append({"op": "load", "sys": 0, "how": rng.choice(["dir", "assign"]), "tree": tree})
+        ops.append(lookup(0, rng.choice(["system", "traced", "formula"])))
+    ops.append(lookup(rng.choice([0, 1]), rng.choice(["system", "direct", "formula", "traced"])))
+    return {"tree": tree, "ops": ops, "big": True}
+
+
+# ---- special numeric values: judged by the oracle only ------------------------------------------------
+
+INF = float("inf")
+SPECIALS = [INF, -INF, INF, -INF, -0.0, 0.0, 1e300, -1e300, 2.0 ** 70, 5e-324, 1.5, -2.25, 3, 1e-300]
+
+
+def special_leaf(rng, pool):
+    entries = [{"d": iso(pool[0] - 400), "k": rng.choice(["bare", "value"]), "v": rng.choice(SPECIALS)}]
+    for o in rng.sample(pool, rng.choice([0, 0, 1, 2])):
+        entries.append({"d": iso(o), "k": "bare", "v": rng.choice(SPECIALS + [None])})
+    rng.shuffle(entries)
+    return {"t": "param", "wrapped": False, "entries": entries}
+
+
+def special_tree(rng, pool):
+    zs = rng.sample(ZNAMES, rng.choice([2, 3, 4]))
+    fs = rng.sample(FNAMES, 2)
+    flat = {"t": "node", "layout": "file", "group": True, "children": [[z, special_leaf(rng, pool)] for z in zs]}
+    if rng.random() < 0.7:                                # the two infinities side by side
+        flat["children"][0][1] = one_leaf(INF)
+        flat["children"][1][1] = one_leaf(-INF)
+    nested = {"t": "node", "layout": "file", "group": True,
+              "children": [[z, {"t": "node", "layout": "file",
+                                "children": [[f, special_leaf(rng, pool)] for f in rng.sample(fs, 2)]}] for z in zs]}
+    ds = sorted(rng.sample(BIRTHS, rng.choice([2, 3])))
+    dated = {"t": "node", "layout": "file", "asof": True,
+             "children": [["before_" + ds[0].replace("-", "_"), special_leaf(rng, pool)]] +
+                         [["after_" + d.replace("-", "_"), special_leaf(rng, pool)] for d in ds]}
+    return {"t": "node", "layout": "dir", "children": [["ceil", flat], ["nest", nested], ["born", dated],
+                                                        ["amount", special_leaf(rng, pool)]]}
+
+
+def gen_special_case(rng):
+    base_ord = O(rng.choice(BASES))
+    pool = list(range(base_ord, base_ord + 30))
+    tree = special_tree(rng, pool)
+    shape = [tree]
+    hot = [iso(rng.choice(pool)) for _ in range(2)]
+    dates = sorted(tree_dates(tree, set()))
+    ops = []
+    for _ in range(rng.choice([6, 8, 10, 12])):
+        r = rng.random()
+        k = rng.randrange(len(shape))
+        if r < 0.8:
+            path = rng.choice([["ceil"], ["ceil"], ["nest"], ["nest"], ["born"], ["amount"], ["ceil", shape[k]["children"][0][1]["children"][0][0]]])
+            o = gen_read(rng, shape[k], hot, dates, path=path)
+            o["sys"] = k
+            if o["tail"]["k"] == "vec":
+                o["tail"]["kind"] = rng.choice(["str", "str", "enum", "enumarray"])
+            ops.append(o)
+        elif r < 0.9:
+            new = special_tree(rng, pool)
+            ops.append({"op": "load", "sys": k, "how": rng.choice(["dir", "assign"]), "tree": new})
+            shape[k] = new
+        elif len(shape) < 3:
+            ops.append({"op": "reform", "sys": k, "inside": 0})
+            shape.append(shape[k])
+    return {"tree": tree, "ops": ops, "special": True}
+
+
 def generate(rng, tier):
     n = {"quick": 1000, "escalated": 3000, "thorough": 12000}[tier]
-    return [gen_case(rng) for _ in range(n)]
+    n_big = {"quick": 6, "escalated": 12, "thorough": 40}[tier]
+    n_special = {"quick": 80, "escalated": 200, "thorough": 1500}[tier]
+    cases = [gen_case(rng) for _ in range(n)]
+    cases += [gen_big_asof_case(rng) for _ in range(n_big)]
+    cases += [gen_special_case(rng) for _ in range(n_special)]
+    return cases
 
 
 # ---- failing-input search helpers -------------------------------------------------------------
